@@ -133,7 +133,7 @@ PROPS["C03"] = dict(
         dict(name="mutations", run="^TestPropMutations$", kind="rapid", shards=16, checks={"quick": 60000, "thorough": 1500000},
              guard={"quick": 900, "thorough": 7200}),
     ],
-    min_class_fraction={"prefix_op_is_highest_binary": 0.02, "table_with_text_aliases": 0.05, "mutant_rejected_by_grammar": 0.2, "mutant_still_well_formed": 0.02},
+    min_class_fraction={"prefix_op_is_highest_binary": 0.02, "table_with_text_aliases": 0.05, "mutant_rejected_by_grammar": 0.2, "mutant_still_well_formed": 0.01},
 )
 
 
@@ -276,7 +276,7 @@ PROPS["C09"] = dict(
     assumptions=["values whose order is documented as unspecified (evaluated maps and what is listed from them) are compared as sets and not used for order-sensitive derivations"],
     jobs=[dict(name="c09", run="^TestPropC09$", kind="rapid", shards=16, checks={"quick": 60000, "thorough": 1500000},
                guard={"quick": 900, "thorough": 7200})],
-    min_class_fraction={"two_derivations_from_one_parent": 0.3, "history_as_one_program": 0.15, "op_combineNeval": 0.05, "op_append": 0.3},
+    min_class_fraction={"two_derivations_from_one_parent": 0.3, "history_as_one_program": 0.15, "op_combineNeval": 0.02, "op_append": 0.3},
 )
 
 
@@ -361,7 +361,7 @@ PROPS["C07"] = dict(
         dict(name="order_ties", run="^TestPropOrder$", kind="rapid", shards=8, checks={"quick": 20000, "thorough": 500000},
              guard={"quick": 900, "thorough": 7200}),
     ],
-    min_class_fraction={"misuse": 0.05, "error_outcome": 0.1, "m_merge": 0.0007, "m_multiUse": 0.0007, "m_fsm": 0.0007, "m_iirApply": 0.0007,
+    min_class_fraction={"misuse": 0.03, "error_outcome": 0.07, "m_merge": 0.0007, "m_multiUse": 0.0007, "m_fsm": 0.0007, "m_iirApply": 0.0007,
                         "m_str.cut": 0.0007, "m_map.replace": 0.0007, "m_linearReg": 0.0007, "m_createInterpolation": 0.0007, "m_combineN": 0.0007,
                         "m_movingWindow": 0.0007, "m_groupByEqual": 0.0007, "m_cross": 0.0007, "m_compact": 0.0007},
 )
@@ -387,7 +387,7 @@ PROPS["C06"] = dict(
                  "closures do not capture lists that are still lazy (that hazard is finding F18, tracked under C11)"],
     jobs=[dict(name="c06", run="^TestPropC06$", kind="rapid", race=True, shards=16, checks={"quick": 3200, "thorough": 60000},
                env={"GORACE": "halt_on_error=1"}, guard={"quick": 1200, "thorough": 10800}, shrinktime="60s")],
-    min_class_fraction={"stage_closure_ran_on_another_goroutine": 0.2, "failing_element": 0.03, "stage_merge": 0.05, "terminal_multiUse": 0.02},
+    min_class_fraction={"stage_closure_ran_on_another_goroutine": 0.12, "failing_element": 0.03, "stage_merge": 0.05, "terminal_multiUse": 0.02},
 )
 
 
@@ -441,7 +441,7 @@ PROPS["C05"] = dict(
         dict(name="known_F6", run="^TestKnownF6$", kind="plain", shards=1, expect_known="F6", death_signature="stack overflow",
              guard={"quick": 300, "thorough": 300}),
     ],
-    min_class_fraction={"fault_raised": 0.3, "closure_ran_on_another_goroutine": 0.015, "context_parMap": 0.005, "context_mergeOperand": 0.02,
+    min_class_fraction={"fault_raised": 0.3, "closure_ran_on_another_goroutine": 0.01, "context_parMap": 0.003, "context_mergeOperand": 0.02,
                         "context_multiUseConsumer": 0.02, "wrapped_in_try": 0.3},
     exhaustive_claim={"quick": ["matrix"], "thorough": ["matrix"]},
     exhaustive_scope={"quick": "every binary operator x every ordered pair of 34 boundary values, every unary operator and every fixed-arity static function x every boundary value, each in 8 contexts with and without try",
@@ -467,5 +467,5 @@ PROPS["C11"] = dict(
                env={"GORACE": "halt_on_error=0"}, race_reports=True,
                race_known=[{"finding": "F18", "one_side_matches": r"parser2/value\.\(\*List\)\.(Eval|Append)(\(|-|\.)"}],
                guard={"quick": 1200, "thorough": 10800})],
-    min_class_fraction={"evaluations_overlapped": 0.3, "constant_list": 0.2, "different_arguments": 0.3},
+    min_class_fraction={"evaluations_overlapped": 0.15, "constant_list": 0.2, "different_arguments": 0.3},
 )
